@@ -1,5 +1,5 @@
 (* C09_Check.v — correspondence checker for C09 (update/delete without condition). *)
-From Verif Require Export Base Sem Where_Model.
+From Verif Require Export Base Sem Where_Model C09_Keys.
 Open Scope Z_scope.
 
 Record case := mk_case {
@@ -8,7 +8,8 @@ Record case := mk_case {
   c_soft : bool;                (* soft-delete model *)
   c_allow : bool;               (* AllowGlobalUpdate (config or session) *)
   c_unscoped : bool;            (* Unscoped somewhere in the chain *)
-  c_pk : bool;                  (* the model value has a primary key *)
+  c_del : bool;                 (* the finisher is Delete (callbacks/delete.go), else an update (callbacks/update.go) *)
+  c_vals : list mvalue;         (* the values gorm reads key conditions from (deleted value, Model value), key fields only *)
   o_missing : bool;             (* ErrMissingWhereClause returned *)
   o_execs : Z;                  (* exec / query / prepare driver calls *)
   o_changed : bool;             (* any table cell changed *)
@@ -17,6 +18,8 @@ Record case := mk_case {
 }.
 
 Definition pk_atom : nat := 45.
+(* the key-condition code of the finisher, run on the values of the case *)
+Definition c_pk (c : case) : bool := key_cond (c_del c) (c_vals c).
 
 (* the WHERE expressions at the time checkMissingWhereConditions runs, and its verdict *)
 Definition model_missing (c : case) : option bool :=
@@ -41,7 +44,8 @@ Definition spec_holds (c : case) : bool :=
   match effective (c_atoms c) (c_chain c) with
   | None => false
   | Some eff =>
-    if negb (c_allow c) && negb (eff || c_pk c)
+    (* "a model value without primary key": no record handed over has a non-zero key field *)
+    if negb (c_allow c) && negb (eff || has_key (c_vals c))
     then o_missing c && (o_execs c =? 0)%Z && negb (o_changed c)   (* never executes *)
          (* at most an empty implicit transaction that is rolled back *)
          && match o_tx c with [] => true | [0; 2] => true | _ => false end
